@@ -173,3 +173,136 @@ func runC04(c *fw.Case) {
 		c.Sample(s.witness(map[string]any{"base_request": base, "session": fmt.Sprint(res.Session()), "delivered_blocks": len(data)}))
 	}
 }
+
+// runCursorResume: resumption from the cursor of a delivered NON-final block of the same (canonical) chain. The request must
+// resolve to block+1 without an undo signal and deliver exactly the messages that followed in the original stream: the stores
+// the linear part starts from must hold everything up to the cursor's block although nothing between the hand-off and the
+// start block is streamed. Reported under prop (C12: resolution and planning for every cursor shape).
+func runCursorResume(c *fw.Case, prop string) {
+	s := newScen(c, gen.PkgOpts{NoIndex: c.R.Intn(2) == 0})
+	defer s.close()
+	outs := s.outputs()
+	if c.Violated() || len(outs) == 0 {
+		c.Count("packages_without_visible_output", 1)
+		return
+	}
+	out := outs[c.R.Intn(len(outs))]
+	ref := s.ref(out)
+	base := s.genRequest(out)
+	base.FinalBlocksOnly = false
+	if base.Stop < uint64(base.Start)+5 && uint64(base.Start)+5 <= s.H {
+		base.Stop = uint64(base.Start) + 5 + uint64(c.R.Intn(int(s.H-uint64(base.Start)-4)))
+	}
+	// finality point somewhere inside (or below) the requested range so that part of the stream is not final
+	lo := uint64(0)
+	if uint64(base.Start) > 3 {
+		lo = uint64(base.Start) - 3
+	}
+	base.Final = lo + uint64(c.R.Intn(int(base.Stop-lo)))
+	if c.R.Intn(2) == 0 {
+		// finality point in the segment in which the lowest module starts: nothing can be back-processed in whole segments,
+		// the linear part must run silently from the hand-off up to the cursor's block
+		low := s.pkg.Init[out]
+		for _, v := range s.pkg.Init {
+			if v < low {
+				low = v
+			}
+		}
+		base.Final = low + uint64(c.R.Intn(int(s.seg-low%s.seg)))
+		c.Count("base_requests_with_final_block_in_first_segment", 1)
+	}
+	if base.Final == 0 {
+		base.Final = 1
+	}
+	if pl, err := s.cl.PlanFor(base); err != nil || pl.KnownHangShape() {
+		c.Count("requests_with_known_hang_shape_skipped", 1)
+		return
+	}
+	res := s.cl.Run(base)
+	c.Count("cursor_resume_base_requests", 1)
+	_ = res.Jobs
+	if res.Stuck || res.Err != nil {
+		c.Count("base_request_failed_not_decided_here", 1)
+		c.Logf("base request failed: stuck=%v err=%v", res.Stuck, res.Err)
+		return
+	}
+	if fs, _ := sim.CheckStream(res, ref, false); len(fs) > 0 {
+		c.Count("base_request_stream_anomaly_not_decided_here", 1)
+		return
+	}
+	data := res.Data()
+	for i := 0; i < len(data)-1; i++ {
+		d := data[i]
+		cur, err := bstream.CursorFromOpaque(d.Cursor)
+		if err != nil || cur.IsOnFinalBlock() || c.R.Intn(2) == 0 {
+			continue
+		}
+		for _, cacheKind := range []string{"same-cache", "empty-cache"} {
+			cl := s.cl
+			if cacheKind == "empty-cache" {
+				dir, _ := os.MkdirTemp(os.Getenv("VH_SCRATCH"), "st3-")
+				defer os.RemoveAll(dir)
+				cl = sim.NewCluster(dir, s.seg, s.cl.Head)
+			}
+			rq := base
+			rq.Cursor = d.Cursor
+			rq.OrderSeed = 1 + c.R.Int63n(1<<40)
+			rq.Workers = 1 + c.R.Intn(4)
+			if pl, err := cl.PlanFor(rq); err != nil || pl.KnownHangShape() {
+				continue
+			}
+			rr := cl.Run(rq)
+			c.Count("resumptions_from_non_final_cursor", 1)
+			ex := map[string]any{"base_request": base, "resumed_from_block": d.Num, "cursor": cur.String(), "cache": cacheKind, "resumed_request": rq, "jobs": rr.Jobs}
+			if rr.Stuck {
+				c.Violation(prop+"/cursor-resume/request-stuck", "the request resumed from a non-final cursor made no progress for 45 s with no tier2 job in flight", s.witness(ex))
+				return
+			}
+			if rr.Err != nil {
+				c.Violation(prop+"/cursor-resume/request-failed/"+fw.NormalizeMsg(rr.Err.Error()), fmt.Sprintf("request resumed from the cursor of non-final block %d failed: %v", d.Num, rr.Err), s.witness(ex))
+				return
+			}
+			for _, resp := range rr.Responses {
+				if u := resp.GetBlockUndoSignal(); u != nil {
+					c.Violation(prop+"/cursor-resume/undo-without-fork", fmt.Sprintf("cursor of canonical block %d produced an undo signal %v", d.Num, u), s.witness(ex))
+					return
+				}
+			}
+			sess := rr.Session()
+			if sess == nil || sess.ResolvedStartBlock != d.Num+1 {
+				c.Violation(prop+"/cursor-resume/wrong-start", fmt.Sprintf("cursor of non-final block %d resolved to start block %v, expected %d", d.Num, sess, d.Num+1), s.witness(ex))
+				return
+			}
+			if sess.LinearHandoffBlock > sess.ResolvedStartBlock {
+				c.Violation(prop+"/cursor-resume/handoff-above-start", fmt.Sprintf("cursor of non-final block %d: hand-off %d above the resolved start %d although the start block is not final", d.Num, sess.LinearHandoffBlock, sess.ResolvedStartBlock), s.witness(ex))
+				return
+			}
+			fs, _ := sim.CheckStream(rr, ref, false)
+			s.report(prop+"/cursor-resume", fs, ex)
+			rf, compared, _ := sim.CheckReads(rr.Execs, ref)
+			s.report(prop+"/cursor-resume", rf, ex)
+			c.Count("store_reads_compared", int64(compared))
+			if c.Violated() {
+				return
+			}
+			want, got := data[i+1:], rr.Data()
+			if len(want) != len(got) {
+				c.Violation(prop+"/cursor-resume/suffix-differs", fmt.Sprintf("resumed from non-final block %d (%s): %d messages, the original stream had %d after that block", d.Num, cacheKind, len(got), len(want)), s.witness(ex))
+				return
+			}
+			for j := range want {
+				if want[j].Num != got[j].Num || want[j].ID != got[j].ID || !bytes.Equal(want[j].Payload, got[j].Payload) {
+					c.Violation(prop+"/cursor-resume/suffix-differs", fmt.Sprintf("resumed from non-final block %d (%s): message %d is block %d %q, original had block %d %q", d.Num, cacheKind, j, got[j].Num, got[j].Payload, want[j].Num, want[j].Payload), s.witness(ex))
+					return
+				}
+			}
+			c.Count("resumed_messages_compared", int64(len(got)))
+			if sess.LinearHandoffBlock < sess.ResolvedStartBlock && len(rr.Execs) > 0 {
+				c.Nontrivial(fmt.Sprintf("cursor|%v|%d|%+v|%d|%s", s.pkg.Describe(), s.seg, base, d.Num, cacheKind))
+			}
+		}
+	}
+	if c.WantSample() {
+		c.Sample(s.witness(map[string]any{"base_request": base, "kind": "cursor-resume", "delivered_blocks": len(data)}))
+	}
+}
